@@ -20,6 +20,13 @@ struct VfSk {
     int cap;
 };
 
+// Arrays are pre-filled with "stale but plausible" contents, as a re-used object would have: every slot byte is GUARD and the
+// index field of a free slot is (position % 8). Code that reads an element beyond the valid ones therefore finds a slot index
+// that can match a real slot. The guard check knows the pattern. The slot counts start at a stale non-zero value.
+static void fill_slots(embedded_pairing_wkdibe_freeslot_t* b, size_t n) {
+    memset(b, GUARD, n * sizeof(*b));
+    for (size_t i = 0; i != n; i++) b[i].idx = (uint32_t) (i % 8);
+}
 VF_EXPORT void* vf_wk_params_new(int l) {
     VfParams* o = (VfParams*) malloc(sizeof(VfParams));
     memset(o, 0xCD, sizeof(*o));
@@ -39,8 +46,8 @@ VF_EXPORT void* vf_wk_sk_new(int nslots) {
     o->cap = nslots;
     size_t n = (size_t) (nslots + vf_guard_slots);
     o->k.b = n ? (embedded_pairing_wkdibe_freeslot_t*) malloc(n * sizeof(embedded_pairing_wkdibe_freeslot_t)) : nullptr;
-    if (n) memset(o->k.b, GUARD, n * sizeof(embedded_pairing_wkdibe_freeslot_t));
-    o->k.l = 0;
+    if (n) fill_slots(o->k.b, n);
+    o->k.l = 3;      /* stale: whoever fills the key has to set it */
     return o;
 }
 VF_EXPORT void vf_wk_sk_free(void* o) {
@@ -57,7 +64,17 @@ static long guard_damage(const void* arr, size_t elem, int cap) {
 }
 VF_EXPORT long vf_wk_sk_guard(void* o) {
     VfSk* s = (VfSk*) o;
-    return s->k.b ? guard_damage(s->k.b, sizeof(embedded_pairing_wkdibe_freeslot_t), s->cap) : 0;
+    if (!s->k.b) return 0;
+    long bad = 0;
+    embedded_pairing_wkdibe_freeslot_t ref;
+    for (int i = s->cap; i != s->cap + vf_guard_slots; i++) {
+        memset(&ref, GUARD, sizeof(ref));
+        ref.idx = (uint32_t) (i % 8);
+        const uint8_t* a = (const uint8_t*) &s->k.b[i];
+        const uint8_t* r = (const uint8_t*) &ref;
+        for (size_t j = 0; j != sizeof(ref); j++) if (a[j] != r[j]) bad++;
+    }
+    return bad;
 }
 VF_EXPORT long vf_wk_params_guard(void* o) {
     VfParams* s = (VfParams*) o;
